@@ -129,7 +129,7 @@ def judge(case, part):
         else:
             target = io.StringIO(newline="")
             writer = cutplace.Writer(cid, target)
-            writer.write_rows(table)
+            writer.write_rows(table if case.get("path") != "api-iterator" else (row for row in table))  # rows may come from a one-shot iterable
             written = target.getvalue()
             writer.close()
             fresh = harness.make_cid(cid_rows(config, columns))
@@ -190,6 +190,8 @@ def work(item):
             judge({"config": list(config), "table": [], "path": path}, part)
         for table in api_tables:
             judge({"config": list(config), "table": table, "path": "api"}, part)
+        for table in api_tables[:6]:
+            judge({"config": list(config), "table": table, "path": "api-iterator"}, part)
         file_tables = api_tables
         if tier == "quick":  # the tables with line breaks inside cells (what a reader opening the file itself may translate) and a few others
             file_tables = [t for t in api_tables if any("\r" in c or "\n" in c or c == OTHER_BREAKS for c in t[0])][:10] + api_tables[:3]
